@@ -100,6 +100,9 @@ func runCheck(l *Loaded, id, tier string, seed int64, spec *Spec, start time.Tim
 	jobs := spec.Jobs(tier)
 	for _, j := range jobs {
 		j.Prop = id
+		if tier != "quick" && j.CrossEvery == 0 {
+			j.CrossEvery = 25 // thorough tier: every 25th solver query is re-decided by cvc5
+		}
 		if j.Limit == 0 {
 			if tier == "quick" {
 				j.Limit = 240 * time.Second
@@ -406,6 +409,7 @@ func firstLineWith(text string, keys ...string) string {
 func writeEvidence(id, tier string, seed int64, spec *Spec, l *Loaded, results []*JobResult, validated, nviol int, wall float64, incon []string, loadS float64) {
 	var states, transitions, queries, sat, unsat, unknown, cached, instrs, paths, merged, asserts, assertQ, forks int64
 	var solverS float64
+	var crossChecked, crossDisagree, fallbackQ int
 	funcs := map[string]int64{}
 	stubs := map[string]int64{}
 	cuts := map[string]int64{}
@@ -432,6 +436,9 @@ func writeEvidence(id, tier string, seed int64, spec *Spec, l *Loaded, results [
 		unknown += int64(r.Unknown)
 		cached += int64(r.CacheHit)
 		solverS += r.SolverS
+		crossChecked += r.CrossChecked
+		crossDisagree += r.CrossDisagree
+		fallbackQ += r.FallbackQueries
 		for k, v := range r.Funcs {
 			funcs[k] += v
 		}
@@ -527,6 +534,7 @@ func writeEvidence(id, tier string, seed int64, spec *Spec, l *Loaded, results [
 		"queries":                      map[string]int64{"total": queries, "sat": sat, "unsat": unsat, "unknown": unknown, "cache_hits": cached},
 		"solver":                       "z3 4.8.12 (one long-lived process per job, push/pop)",
 		"solver_s":                     round2(solverS),
+		"cross_solver":                 map[string]int{"queries_rechecked_on_cvc5": crossChecked, "disagreements": crossDisagree, "queries_decided_by_cvc5_bv_as_int_fallback": fallbackQ},
 		"load_and_ssa_build_s":         round2(loadS),
 		"reach_labels":                 reach,
 		"cuts":                         cuts,
